@@ -23,32 +23,32 @@ add("C01", "exploration",
     "deterministic simulation: replica twin runs under seeded map order / clock / cache warmness / process history + concurrent executions under a seeded scheduler + race detector over simulator-chosen schedules + cast-verify protocol path")
 
 add("C02", "exploration",
-    "seeded search over operation histories (update/delete/get/hash/commit/warm+cold reopen/cache-limit/iterate, 1-2 tries on one node database) with one-shot disk read faults on the simulated disk; after every operation the real trie is compared with an independent Yellow-Paper MPT root and a map model. Sampling, not proof: a clean batch is evidence for the histories explored.",
-    "trusted: keccak256 (x/crypto), the harness's own RLP/hex-prefix reference (model/mpt.go), simdisk.KV; the trie, hasher, node database and iterator are the real code",
+    "seeded search over operation histories (update/delete/get/hash/commit/warm+cold reopen/cache-limit/size-driven node-cache eviction (NodeDatabase.Cap)/iterate, 1-2 tries on one node database) with one-shot disk read faults on the simulated disk, or - fault-free plans, about a third - on the repository's own MemDatabase; after every operation the real trie is compared with an independent Yellow-Paper MPT root and a map model. Sampling, not proof: a clean batch is evidence for the histories explored.",
+    "trusted: keccak256 (x/crypto), the harness's own RLP/hex-prefix reference (model/mpt.go), simdisk.KV (plans with faults); the trie, hasher, node database and iterator are the real code",
     "deterministic simulation: seeded histories + disk read faults vs reference MPT model")
 
 add("C03", "fault_enumeration",
-    "for seeded histories of blocks (half of them >100 KiB so the commit spans several batch writes) committed as blockChain.saveStates does, EVERY prefix of every commit's physical write sequence is materialised as a crash image and opened cold: all earlier roots and - when its top node is present, and always after an acknowledged commit - the new root must resolve completely (account trie, storage tries, code) and read back the recorded values; plus a failing-write variant (Commit must report the error, older roots stay intact, and a commit of the same root repeated by the surviving process must not report success unless the root is on disk). Exhaustive over write prefixes per history; histories are sampled.",
+    "for seeded histories of blocks (half of them >100 KiB so the commit spans several batch writes; code up to 120 KB; writes inside reverted snapshots; slots emptied and rewritten; one-byte values; prefix-related storage keys; 24-140 slots of one account at once) each executed on a new AccountDB at its parent root and committed as blockChain.saveStates does, the reference for a root being what the executing state answered right BEFORE the commit, EVERY prefix of every commit's physical write sequence is materialised as a crash image and opened cold: all earlier roots and - when its top node is present, and always after an acknowledged commit - the new root must resolve completely (account trie, storage tries, code) and read back the recorded values; plus a failing-write variant (Commit must report the error, older roots stay intact, and a commit of the same root repeated by the surviving process must not report success unless the root is on disk). Exhaustive over write prefixes per history; histories are sampled.",
     "crash model = process death (completed writes survive, a batch is atomic, nothing torn): the code never syncs and the property speaks of process death; trusted: simdisk.KV",
     "deterministic simulation: crash-point enumeration over the physical write log + cold reopen + complete walk")
 
 add("C04", "exploration",
-    "seeded search over histories of every AccountDB mutator, nested Snapshot/RevertToSnapshot, cache-warming reads, Prepare, Commit + warm/cold reopen on the simulated disk; oracles: the statement's query vector recorded at each snapshot must be answered identically right after the revert, and a twin run without the reverted segments must give the same intermediate and committed root (difference classified leaf by leaf). Sampling, not proof.",
-    "trusted: simdisk.KV, the closed observation universe; AccountDB/journal/tries are the real code; base states start with the native-token contract binding every genesis creates",
+    "seeded search over histories of every AccountDB mutator (balances up to uint256 boundary values; in 5% of the plans a native-token binding made inside a snapshot that is reverted at once, on a base state without one; in 12% an instance life crossing Proposal002's height), nested Snapshot/RevertToSnapshot, cache-warming reads, Prepare, Commit + warm/cold reopen on the simulated disk; oracles: the statement's query vector recorded at each snapshot must be answered identically right after the revert, and a twin run without the reverted segments must give the same intermediate and committed root (difference classified leaf by leaf). Sampling, not proof.",
+    "trusted: simdisk.KV, the closed observation universe; AccountDB/journal/tries are the real code; base states start with the native-token contract binding every genesis creates (except the no-binding plans)",
     "deterministic simulation: seeded histories with nested reverts + reopen faults; observation and twin-run oracles")
 
 add("C05", "fault_enumeration",
-    "seeded block trees generated with the node's own cast/verify/assemble API are delivered to a fresh real node in seeded orders (duplicates, orphans first, re-deliveries, restarts); the invariant of the statement is checked on the live node after every delivery and - exhaustively per plan - on a new incarnation booted from the disk image after EVERY individual store write inside every delivery (crash + restart), followed by a progress check (a valid child of the restarted head is accepted). Reference fork-choice comparator for weight monotonicity; half of the reorg scenarios are equal-TotalQN weight contests decided at the fork point, with height gaps on either branch.",
+    "seeded block trees generated with the node's own cast/verify/assemble API are delivered to a fresh real node in seeded orders (duplicates, orphans first, re-deliveries, restarts; deliveries between restarts run as one task of the seeded scheduler); in about a third of the plans one branch arrives through the SYNC path instead (fork store rooted at the common ancestor, verification and execution on the fork, blockChainFork.triggerOnChain) as one delivery; the invariant of the statement is checked on the live node after every delivery and - exhaustively per plan - on a new incarnation booted from the disk image after EVERY individual store write inside every delivery (crash + restart), followed by a progress check (a valid child of the restarted head is accepted). Reference fork-choice comparator for weight monotonicity; half of the reorg scenarios are equal-TotalQN weight contests decided at the fork point, with height gaps on either branch.",
     "trusted: simulated storage under real goleveldb (completed writes survive, nothing torn), stub ConsensusHelper (signatures/VRF accepted), in-process restart through in-package drivers; one real node, peers are the delivery script",
     "deterministic simulation: block-tree delivery schedules + crash-after-every-store-write enumeration + restart")
 
 add("C06", "exploration",
-    "invariant monitor over a closed address universe while seeded value-heavy transactions (multi-target transfers failing part-way, weird amounts, fees without balance, contract create/call with value into forwarding / reverting / gas-burning / self-destructing programs, gas limits around the intrinsic cost, miner stake lock and refund escrow) are executed one per block (mostly) by the real block executor on successive committed states, at plan-chosen heights (escrow release), under seeded map order: sum(after) - sum(before) = released escrow - stake locked - self-destructed-to-self; every balance in [0, 2^256); failed transactions leave the sum unchanged. Sampling, not proof.",
+    "invariant monitor over a closed address universe while seeded value-heavy transactions (multi-target transfers failing part-way, weird amounts, fees without balance, contract create/call with value into forwarding / reverting / gas-burning / self-destructing programs, gas limits around the intrinsic cost, miner stake lock and refund escrow) are executed one per block (mostly) by the real block executor on successive committed states, at plan-chosen heights (escrow release), under seeded map order: sum(after) - sum(before) = released escrow - stake locked - self-destructed-to-self; every balance in [0, 2^256); failed transactions leave the sum unchanged; an accepted stake refund moves exactly what leaves the miner's recorded stake into the escrow of its release height. Sampling, not proof.",
     "trusted: closed universe (targets, created contracts, beneficiaries are added as they appear), released escrow read from the escrow entries before the block, stub ConsensusHelper",
     "deterministic simulation: value-movement histories with gas-starvation faults + conservation monitor")
 
 add("C12", "exploration",
-    "seeded call trees (2-14 frames, CALL/CALLCODE/DELEGATECALL/STATICCALL, effects SSTORE / LOG / value transfer / CREATE, endings RETURN / REVERT / INVALID / infinite loop / stack fault, limited gas shares, starved root gas) are deployed as contracts and executed by the real block executor; every successful frame returns the bitmap of frames of its subtree whose effects must persist, so the root return data carries the actual outcome of every frame; storage of every frame slot, ordered receipt logs, balances, nonces and created accounts must equal exactly the effects of the reported frames, and nothing from a STATICCALL subtree may persist or report success after writing. Cross-transaction plans run 2-4 transactions on one state object and check per-receipt logs, equal gas (no inherited warm access list) and empty transient storage at the start of each; half of them only warm ADDRESSES (account-access opcodes, inner CREATE, deployment transaction), compare every probe's gas with the same probe alone in a block, and inspect the access list of the executor's state object right after Prepare for a next transaction (EIP-2929 gas is switched off in this VM, so the list is otherwise unobservable). Sampling, not proof.",
+    "seeded call trees (2-14 frames, CALL/CALLCODE/DELEGATECALL/STATICCALL, effects SSTORE / LOG / value transfer / CREATE, endings RETURN / REVERT / INVALID / infinite loop / stack fault, limited gas shares, starved root gas) are deployed as contracts and executed by the real block executor; every successful frame returns the bitmap of frames of its subtree whose effects must persist, so the root return data carries the actual outcome of every frame; storage of every frame slot, ordered receipt logs, balances, nonces and created accounts must equal exactly the effects of the reported frames, and nothing from a STATICCALL subtree may persist or report success after writing. Failed-creation plans: an inner CREATE/CREATE2 - or, in 30% of them, a contract-creation TRANSACTION - whose init code stores, logs and pays and then ends by returning 1 byte / a code deposit it cannot pay / oversized code / REVERT / INVALID: a creation that reported failure leaves no account, storage, balance or log (receipt of a failed transaction carries none). Stake-opcode / AUTHCALL plans: the node's state-changing opcodes inside a STATICCALL. Cross-transaction plans run 2-4 transactions on one state object and check per-receipt logs, equal gas (no inherited warm access list) and empty transient storage at the start of each; half of them only warm ADDRESSES (account-access opcodes, inner CREATE, deployment transaction), compare every probe's gas with the same probe alone in a block, and inspect the access list of the executor's state object right after Prepare for a next transaction (EIP-2929 gas is switched off in this VM, so the list is otherwise unobservable). Sampling, not proof.",
     "trusted: the harness assembler and the bitmap protocol of the generated contracts (a frame can only report success by executing its RETURN), per-frame slots/topics make every observed value attributable; SELFDESTRUCT only in leaf frames",
     "deterministic simulation: generated call trees with gas-starvation faults; outcome-bitmap + exact post-state oracle; same-state-object transaction sequences")
 
@@ -68,22 +68,22 @@ add("C17", "exploration",
     "deterministic simulation: op histories vs reference pool; seeded interleavings at inserted yield points; porcupine on recorded histories; race detector over simulator-chosen schedules")
 
 add("C07", "exploration",
-    "a booted real node with its ingress handlers receives honestly signed native and EIP-155 wrapped transactions, and the same transactions tampered by exactly one mutation (substitution of each authenticated field with or without recomputed hash, signature r/s/v bit flips, spliced signature, single bit flips of the marshalled bytes, outer-field substitutions, inner RLP re-encodings under the original signature, and forged wrapped payloads with unrecoverable or other-chain signatures declaring the zero address as sender) through the peer-to-peer receive path, the client write topic and both branches of the queued write handler, handler goroutines running as tasks of the seeded scheduler. Exact oracle at quiescence: the pending pool equals the honestly signed transactions that were delivered intact. Sampling, not proof.",
+    "a booted real node with its ingress handlers receives honestly signed native and EIP-155 wrapped transactions, and the same transactions tampered by exactly one mutation (substitution of each authenticated field with or without recomputed hash, signature r/s/v bit flips, spliced signature, single bit flips of the marshalled bytes, outer-field substitutions, inner RLP re-encodings under the original signature, forged wrapped payloads with unrecoverable or other-chain signatures declaring the zero address as sender, bytes appended behind the signed payload, and the honest field values re-spelled non-canonically in RLP) through the peer-to-peer receive path (alone or in one batch with an intact honest transaction), the client write topic and both branches of the queued write handler, handler goroutines running as tasks of the seeded scheduler. Exact oracle at quiescence: the pending pool equals the honestly signed transactions that were delivered intact. Sampling, not proof.",
     "trusted: harness key material and the mutation generator (never produces the ECDSA twin); unauthenticated fields are not mutated; gate/websocket layer stubbed (bytes injected at handleMessage)",
     "deterministic simulation: Byzantine transport (tamper fault) on every ingress path + exact admission oracle")
 
 add("C09", "exploration",
-    "every block, header, transaction and group the simulated node produces or parses crosses the real codecs (marshal -> parse -> re-hash and re-marshal; store -> reload; relay to another incarnation), edge-valued in-memory objects must reach a fixed point after one pass, the genesis header, fully populated boundary headers (prove value 0/1/255/256) and seeded transactions with unusual field texts (upper-case / EIP-55 / 0X-prefixed / non-address sources, binary and unicode data, extreme integers) must keep hash and fields, and a corrupting transport (bit flips, truncation, extension, removal of one optional protobuf field, random bytes) feeds every exported parser and the node's receive path (NewBlockMsg, ReqTransactionMsg, TransactionGotMsg handlers as scheduler tasks); any panic is a violation and an intact block must still be processed afterwards. Sampling, not proof.",
-    "trusted: golang/protobuf, the stub ConsensusHelper performs the structural header checks of the real one (hash, parent hash) but accepts group signatures; consensus decoders run under the handler's recover() and the sync processor is not started: neither is driven",
-    "deterministic simulation: codec hops on simulated transport/disk + transport corruption faults; panic-free and hash-stability oracles")
+    "every block, header, transaction and group the simulated node produces or parses crosses the real codecs (marshal -> parse -> re-hash and re-marshal; store -> reload; relay to another incarnation), edge-valued in-memory objects must reach a fixed point after one pass, the genesis header, fully populated boundary headers (prove value 0/1/255/256) and seeded transactions with unusual field texts (upper-case / EIP-55 / 0X-prefixed / non-address sources, binary and unicode data, extreme integers) must keep hash and fields, and a corrupting transport (bit flips, truncation, extension, removal of one optional protobuf field, random bytes) feeds every exported parser and the node's receive path as envelopes and as gateway frames (NewBlockMsg, ReqTransactionMsg, TransactionGotMsg handlers as scheduler tasks; corrupted consensus messages - proposal, verification share, key share piece, signing-key announcement - into the real ConsensusHandler.Handle and consensus/net/msg_decode.go, also as a task); any panic that escapes is a violation and an intact block must still be processed afterwards. Sub transactions with balance/coin/FT/asset maps must arrive field by field. In 40% of the plans 2-3 scheduler tasks marshal the node's objects concurrently (statement-level yields inside middleware/types) and must each receive the bytes the call returns alone; a second stage runs 24 (quick) / 300 (thorough) such plans in a -race build whose task hand-off is invisible to the race detector. Sampling, not proof.",
+    "trusted: golang/protobuf, the stub ConsensusHelper performs the structural header checks of the real one (hash, parent hash) but accepts group signatures; the consensus message processors behind the real handler are no-ops (decoded messages are dropped); the sync processor is not started and its message kinds are not driven",
+    "deterministic simulation: codec hops on simulated transport/disk + transport corruption faults (incl. consensus messages through the real handler); panic-free and hash-stability oracles; concurrent callers under a seeded scheduler + race detector over simulator-chosen schedules")
 
 add("C19", "fault_enumeration",
-    "seeded histories of AddGroup (valid and three kinds of invalid), remove-last-group, remove-then-different-group and restart on a booted real node; the invariant (linked list from genesis, count, height index below and above count, by-id retrieval, removed groups gone, sync successors) is checked against a slice model on the live node after every operation and - exhaustively per history - on a fresh incarnation booted from the disk image taken after every operation. Crash points inside an operation are booted too but only reported as probes (outside the property's quantifier).",
+    "seeded histories of AddGroup (valid; invalid in several ways; valid successors with arbitrary unauthenticated wire height fields; a valid successor the store cannot encode; two competing callers under the seeded scheduler), remove-last-group, remove-then-different-group and restart on a booted real node; the invariant (linked list from genesis, count, height index below and above count, by-id retrieval, removed groups gone, sync successors) is checked against a slice model on the live node after every operation and - exhaustively per history - on a fresh incarnation booted from the disk image taken after every operation. Crash points inside an operation are booted too but only reported as probes (outside the property's quantifier).",
     "trusted: simulated storage under real goleveldb (completed writes survive), stub ConsensusHelper.CheckGroup, in-process restart (singletons reset through in-package drivers)",
     "deterministic simulation: op histories + restart-after-every-op enumeration from disk images vs slice model")
 
 add("C20", "exploration",
-    "seeded histories of miner apply / add-stake / refund / change-account transactions (valid and invalid, interleaved with transfers) executed by the real block executor on successive committed states at plan-chosen heights (jumping to escrow release heights), with restarts and seeded map order; a reference ledger that observes receipt statuses checks, after every block: lookup by id (two ways) / by account / by iteration agree; stake = applied + added - refunded; election totals = sum over active records; one miner per account; liquid balances moved by exactly released escrow minus stake locked; refund escrow grew by exactly the refunded amounts; a rejected miner transaction leaves nothing but fee/nonce (twin execution). Sampling, not proof.",
+    "seeded histories of miner apply / add-stake / refund / change-account / become-node transactions (valid and invalid, refund payloads lacking a field, interleaved with transfers) executed by the real block executor on successive committed states at plan-chosen heights (jumping to escrow release heights), with restarts and seeded map order; a reference ledger that observes receipt statuses checks, after every block: lookup by id (two ways) / by account / by iteration agree; stake = applied + added - refunded; election totals = sum over active records; one miner per account; liquid balances moved by exactly released escrow minus stake locked; refund escrow grew by exactly the refunded amounts; a rejected miner transaction leaves nothing but fee/nonce (twin execution). Sampling, not proof.",
     "trusted: the ledger (observes acceptance, rules only on double control of an account and refunds above the stake), closed address universe, stub ConsensusHelper; blocks are executed and committed as saveStates does but not inserted into the chain (heights are plan-chosen)",
     "deterministic simulation: miner-transaction histories + restarts + seeded map order vs reference ledger and twin execution")
 
@@ -94,7 +94,7 @@ m = {
  "setup_cmd": "bin/setup",
  "hooks": {
   "guard": "verif",
-  "enable": "bin/build: go build -tags verif -overlay <harness under src/zzverif + in-package driver files from /verif/overlay> -modfile <copy of go.mod with go 1.18 + porcupine/rapid>; /repo is never written",
+  "enable": "bin/build: go build -tags verif -overlay <harness under src/zzverif + in-package driver files from /verif/overlay> -modfile <copy of go.mod with go 1.20 (same loop-variable semantics as the shipped go 1.13) + porcupine>; /repo is never written",
   "baseline_off_cmd": "cd /repo && GOFLAGS=-mod=mod go test -json -vet=off -count=1 -timeout 25m ./...",
   "source_commits": [l.split()[0] for l in hooks_commits],
   "add_only": True,
